@@ -20,6 +20,7 @@ from core import Ctx, ROOT, drive
 from proto import Atom, enc
 from gen import grammars as G
 from gen import trees as T
+import semconv
 import solverun
 
 LEVEL = "proof"
@@ -49,10 +50,12 @@ def work(pb: Dict[str, Any]) -> Dict[str, Any]:
     random.seed(pb.get("rseed", 0))
     out: Dict[str, Any] = {"inputs": [], "repairs": [], "mutations": []}
     try:
-        solver = ISLaSolver(pb["grammar"], pb["constraint"])
+        kw = {"start_symbol": pb["start_symbol"]} if pb.get("start_symbol") else {}
+        solver = ISLaSolver(pb["grammar"], pb["constraint"], **kw)
     except BaseException as e:  # noqa
         out["ctor_exc"] = type(e).__name__
         return out
+    out["grammar_used"] = {k: list(v) for k, v in solver.grammar.items()}
     try:
         out["formula"] = enc(semconv.formula_to_sexp(solver.formula, solver.grammar))
         out["const"] = solver.top_constant.map(lambda c: c.name).value_or("start")
@@ -62,7 +65,10 @@ def work(pb: Dict[str, Any]) -> Dict[str, Any]:
     except BaseException as e:  # noqa
         out["unsupported"] = "conversion:" + type(e).__name__
         return out
-    parser = EarleyParser(pb["grammar"])
+    parser = EarleyParser(solver.grammar)
+    from isla.derivation_tree import DerivationTree
+
+    parsed_trees = []
 
     def outcome(fn):
         try:
@@ -97,6 +103,7 @@ def work(pb: Dict[str, Any]) -> Dict[str, Any]:
                 o["n_parses"] = -1
             r = outcome(lambda: solver.check(tree))
             o["check_tree"] = r[1] if r[0] == "value" else r
+            parsed_trees.append(tree)
         r = outcome(lambda: solver.check(s))
         o["check_str"] = r[1] if r[0] == "value" else r
         r = outcome(lambda: solver.parse(s, silent=True))
@@ -106,6 +113,18 @@ def work(pb: Dict[str, Any]) -> Dict[str, Any]:
         else:
             o["parse"] = r[0] if r[0] != "raises" else r
         out["inputs"].append(o)
+    # a DIFFERENT tree that carries the identity of a tree checked before (as produced by replace_path / substitute /
+    # the mutator, which all keep the root's id): the verdict must be that of the new tree
+    out["variants"] = []
+    for i in range(len(parsed_trees)):
+        a, b = parsed_trees[i], parsed_trees[(i + 1) % len(parsed_trees)]
+        if a is b or str(a) == str(b):
+            continue
+        variant = DerivationTree(b.value, b.children, id=a.id)
+        r = outcome(lambda: solver.check(variant))
+        out["variants"].append({"tree": T.from_isla(variant), "string": str(variant), "same_id_as": str(a), "check": r[1] if r[0] == "value" else r})
+        if len(out["variants"]) >= 4:
+            break
     for s in pb.get("repair_inputs", []):
         r = outcome(lambda: solver.repair(s, fix_timeout_seconds=1))
         rec: Dict[str, Any] = {"string": s}
@@ -209,6 +228,8 @@ def gen_inputs(rng, g, n: int) -> List[str]:
         if len(s) > 40:
             continue
         out.append(s)
+        if rng.random() < 0.25:
+            out.append(s + "\n")
         if rng.random() < 0.5 and s:
             i = rng.randrange(len(s))
             k = rng.random()
@@ -231,7 +252,7 @@ def evaluate_problem(ctx: Ctx, pb, res):
         ctx.count("problem", "formula-outside-reference")
         return
     ctx.count("problem", "ran")
-    g = pb["grammar"]
+    g = res.get("grammar_used") or pb["grammar"]
     gs = enc(G.grammar_sexp(g))
     fs, const = res["formula"], res.get("const", "start")
     z3_bound = " int " in text
@@ -284,6 +305,26 @@ def evaluate_problem(ctx: Ctx, pb, res):
     if len(verdicts) > 1:
         for o in res["inputs"]:
             ctx.nontriv((text, o["string"]))
+    # variants sharing the identity of a previously checked tree
+    vreqs = [f"(sem certify {gs} {enc(T.to_sexp(v['tree']))} {fs} {enc('<start>')} {enc(const)} {T.size(v['tree']) + 16})" for v in res.get("variants", [])]
+    for v, a in zip(res.get("variants", []), drive(vreqs) if vreqs else []):
+        ctx.evaluations += 1
+        if not isinstance(a, list) or len(a) != 4 or a[0] is not True or a[1] is not True:
+            continue
+        verdict = semconv.tv(a[3])
+        c = v["check"]
+        replay = {"grammar": g, "constraint": text, "string": v["string"], "checked_before_with_same_root_id": v["same_id_as"], "reference": str(verdict)}
+        if isinstance(c, (list, tuple)):
+            if not (z3_bound and c[0] == "UnknownResultError"):
+                ctx.count("variant", "check-raises")
+            continue
+        ctx.count("variant", "compared")
+        if verdict is not None and c != verdict:
+            ctx.violation(
+                "check-tree:verdict-after-earlier-check",
+                f"check(tree) = {c} for {v['string']!r} (the specification says {verdict}) after a different tree with the same root identity ({v['same_id_as']!r}) had been checked: {text!r}",
+                replay,
+            )
     # repair / mutate
     creqs, cmeta = [], []
     expected_of = {o["string"]: str(a) for o, a in zip(res["inputs"], answers)}
@@ -335,8 +376,11 @@ def make_problems(ctx: Ctx, n: int):
     rng = ctx.rng
     pbs = []
     for i in range(n):
-        pb = solverun.gen_problem(rng, i, grid=False, allow_start_symbol=False)
-        ins = gen_inputs(rng, pb["grammar"], 6)
+        pb = solverun.gen_problem(rng, i, grid=False, allow_start_symbol=True)
+        g_in = dict(pb["grammar"])
+        if pb.get("start_symbol"):
+            g_in["<start>"] = [pb["start_symbol"]]
+        ins = gen_inputs(rng, g_in, 6)
         if not ins:
             continue
         pb["inputs"] = ins[:10]
